@@ -245,7 +245,7 @@ def run(F, rep, tier, allfacts):
     def reasons(n):
         if n not in cache:
             rs = set()
-            for g in cg.reachable([n], stop=lambda x: not x.startswith("fuel_vm::")):
+            for g in cg.reachable([n], stop=lambda x: not x.lstrip("<").startswith("fuel_vm::")):
                 f = cg.fns.get(g)
                 if not f:
                     continue
